@@ -64,6 +64,14 @@ pub fn probe_cov_fill(w: i32, h: i32, ctm: &Transform, path: &Path, aa: bool) ->
     alpha_of(dt.get_data())
 }
 
+/// coverage of a text call: the glyph mask font-kit produces, observed through a white SrcOver draw
+pub fn probe_cov_text(w: i32, h: i32, ctm: &Transform, t: &TextSpec, aa: bool) -> Vec<u8> {
+    let mut dt = DrawTarget::new(w, h);
+    dt.set_transform(ctm);
+    crate::text::draw(&mut dt, t.font, t.size, &t.text, t.x, t.y, t.glyphs, &Source::Solid(WHITE), &opts(BlendMode::SrcOver, 1., aa));
+    alpha_of(dt.get_data())
+}
+
 pub fn probe_cov_stroke(w: i32, h: i32, ctm: &Transform, path: &Path, style: &StrokeStyle, aa: bool) -> Vec<u8> {
     let mut dt = DrawTarget::new(w, h);
     dt.set_transform(ctm);
@@ -225,6 +233,9 @@ pub struct Monitor<'a> {
     tainted: bool,
     /// the buffer being checked is a layer buffer or the destination of pop_layer
     layer_dest: bool,
+    /// the real target's user space is magnified by this factor (see step)
+    scale: Option<f32>,
+    real_ctm: Transform,
 }
 
 struct DrawModel {
@@ -263,6 +274,8 @@ impl<'a> Monitor<'a> {
             unchanged_px: 0,
             tainted: false,
             layer_dest: false,
+            scale: None,
+            real_ctm: identity(),
         }
     }
 
@@ -485,6 +498,17 @@ impl<'a> Monitor<'a> {
                 };
                 DrawModel { cov: rect_cov(x, y, rw, rh, aa_of(o)), src: probe_source(w, h, &self.ctm, &spec, o.alpha), mode: o.blend_mode, hull: hull_of(&rect_path(x, y, rw, rh), 0.), noop: singular, solid: None }
             }
+            // glyph shapes belong to font-kit: the coverage is what the same call gives in white on transparent.
+            // draw_text/draw_glyphs pass no global alpha on (the statements of C02/C03 do not list them): the
+            // formula is asserted for alpha 1 only, frame, clip and premultiplied validity always
+            Op::Text(t, s, o) => DrawModel {
+                cov: probe_cov_text(w, h, &self.ctm, t, aa_of(o)),
+                src: if opacity_byte(o.alpha) == 255 { probe_source(w, h, &self.ctm, s, 1.0) } else { None },
+                mode: o.blend_mode,
+                hull: None,
+                noop: singular,
+                solid: None,
+            },
             _ => unreachable!(),
         }
     }
@@ -605,16 +629,33 @@ impl<'a> Monitor<'a> {
 
     pub fn step(&mut self, op: &Op) {
         CURRENT_OP.with(|c| c.set((self.op_index, op.name())));
+        // In a scaled scene the real target gets the call's twin under a user space magnified by a power of two
+        // (exact in f32, bit-identical pictures: C11's scale-invariance workload), while the shadow model, the
+        // probes and the clip-only twin keep working with the call as written. A defect that depends on the
+        // scale then shows as a difference between the two instead of hiding in a probe that shares it.
+        let real_op: Op = match self.scale {
+            Some(k) => scaled_twin(op, k).unwrap_or_else(|| op.clone()),
+            None => op.clone(),
+        };
+        let real_op = &real_op;
         match op {
+            Op::UserScale(e) => {
+                let k = (2.0f32).powi(*e);
+                self.scale = Some(k);
+                self.dt.set_transform(&Transform::scale(k, k).then(&self.ctm));
+                self.real_ctm = *self.dt.get_transform();
+                self.st.add("scenes_run_under_a_power_of_two_user_scale", 1);
+            }
             Op::SetTransform(t) => {
-                self.dt.set_transform(t);
+                real_op.apply(&mut self.dt);
+                self.real_ctm = *self.dt.get_transform();
                 self.twin.set_transform(t);
                 self.ctm = *t;
             }
             Op::PushClipRect(x0, y0, x1, y1) => {
                 let prev = self.effective();
                 self.eff_stack.push(prev);
-                op.apply(&mut self.dt);
+                real_op.apply(&mut self.dt);
                 op.apply(&mut self.twin);
                 self.clips.push(ClipEntry::Rect(*x0, *y0, *x1, *y1));
                 self.check_clip_model();
@@ -622,7 +663,7 @@ impl<'a> Monitor<'a> {
             Op::PushClip(p) => {
                 let prev = self.effective();
                 self.eff_stack.push(prev);
-                op.apply(&mut self.dt);
+                real_op.apply(&mut self.dt);
                 op.apply(&mut self.twin);
                 // the coverage of the path's image under the transform in force now (pre-transformed and
                 // filled under the identity: a singular transform still rasterises the degenerate image
@@ -632,7 +673,7 @@ impl<'a> Monitor<'a> {
                 self.check_clip_model();
             }
             Op::PopClip => {
-                op.apply(&mut self.dt);
+                real_op.apply(&mut self.dt);
                 op.apply(&mut self.twin);
                 self.clips.pop();
                 self.check_clip_model();
@@ -645,7 +686,7 @@ impl<'a> Monitor<'a> {
             }
             Op::PushLayer(o, m) => {
                 let before = self.snapshot();
-                op.apply(&mut self.dt);
+                real_op.apply(&mut self.dt);
                 let after = self.snapshot();
                 self.layers.push(LayerInfo { opacity: *o, mode: *m });
                 if after.0 != before.0 || after.1.len() != before.1.len() + 1 || after.1[..before.1.len()] != before.1[..] {
@@ -663,7 +704,7 @@ impl<'a> Monitor<'a> {
                         }
                     }
                 }
-                if self.dt.get_transform() != &self.ctm {
+                if self.dt.get_transform() != &self.real_ctm {
                     self.viol("C06", "push_layer changed the transform".to_string());
                 }
                 self.st.add("push_layer_checked", 1);
@@ -671,14 +712,14 @@ impl<'a> Monitor<'a> {
             Op::PopLayer => {
                 let before = self.snapshot();
                 let info = self.layers.pop().expect("balanced");
-                op.apply(&mut self.dt);
+                real_op.apply(&mut self.dt);
                 let after = self.snapshot();
                 let nl = before.1.len();
                 if after.1.len() != nl - 1 {
                     self.viol("C06", "pop_layer did not remove exactly one layer".to_string());
                     return;
                 }
-                if self.dt.get_transform() != &self.ctm || !bitwise_eq(self.dt.get_transform(), &self.ctm) {
+                if self.dt.get_transform() != &self.real_ctm || !bitwise_eq(self.dt.get_transform(), &self.real_ctm) {
                     self.viol("C11", "pop_layer changed the transform".to_string());
                     self.viol("C06", "pop_layer changed the transform".to_string());
                 }
@@ -725,9 +766,9 @@ impl<'a> Monitor<'a> {
                 // drawing calls
                 let model = self.draw_model(op);
                 let before = self.snapshot();
-                op.apply(&mut self.dt);
+                real_op.apply(&mut self.dt);
                 let after = self.snapshot();
-                if !bitwise_eq(self.dt.get_transform(), &self.ctm) {
+                if !bitwise_eq(self.dt.get_transform(), &self.real_ctm) {
                     self.viol("C11", format!("{} changed the transform", op.name()));
                 }
                 if after.1.len() != before.1.len() {
@@ -907,6 +948,10 @@ fn gen_draw(rng: &mut crate::prng::Rng, w: i32, h: i32, prof: &SceneProfile, sin
     let src = random_source(rng, w, h, prof.solid_weight);
     let o = DrawOptions { blend_mode: random_mode(rng), alpha: random_alpha(rng), antialias: if rng.chance(0.75) { AntialiasMode::Gray } else { AntialiasMode::None } };
     let k = rng.below(if singular_ctm { 9 } else { 12 });
+    // text now and then (never under a singular transform: font-kit is asked for glyph bounds under it)
+    if !singular_ctm && crate::text::available() > 0 && rng.chance(0.06) {
+        return Op::Text(random_text(rng, w, h), src, o);
+    }
     match k {
         0..=3 => {
             let p = if rng.chance(0.6) { small_shape(rng, w, h) } else { { let c = rng.chance(0.3); random_path(rng, w, h, c) } };
@@ -1061,6 +1106,24 @@ pub fn gen_scene(rng: &mut crate::prng::Rng, prof: &SceneProfile) -> Scene {
             ops.push(gen_draw(rng, w, h, prof, singular));
         }
         ops.push(if c == 'c' { Op::PopClip } else { Op::PopLayer });
+    }
+    // one scene in twelve runs with the real target's user space magnified by a power of two (see Monitor::step)
+    if w <= 90 && h <= 90 && rng.chance(0.085) {
+        let e = *rng.pick(&[-14i32, -13, -12, -11, -10, -9, -8, -5, 5, 8, 9, 10, 11, 12]);
+        let fix = |s: &SrcSpec| scale_invariant_source(s);
+        let mut scaled: Vec<Op> = vec![Op::UserScale(e)];
+        for op in ops {
+            scaled.push(match op {
+                Op::Fill(p, s, o) => Op::Fill(p, fix(&s), o),
+                Op::Stroke(p, s, st, o) => Op::Stroke(p, fix(&s), st, o),
+                Op::FillRect(x, y, rw, rh, s, o) => Op::FillRect(x, y, rw, rh, fix(&s), o),
+                Op::Mask(s, x, y, mw, mh, d) => Op::Mask(fix(&s), x, y, mw, mh, d),
+                // glyphs have no exact twin (hinting-free outlines are scaled by font-kit in its own arithmetic)
+                Op::Text(t, s, o) => Op::FillRect(t.x, t.y, t.size, t.size * 0.5, fix(&s), o),
+                other => other,
+            });
+        }
+        ops = scaled;
     }
     Scene { w, h, init, ops }
 }
